@@ -16,11 +16,16 @@ def run(ctx: Ctx):
     ctx.rule = ("random k-CNF near the phase transition (n<=12 quick, <=20 thorough) with injected unit/binary/repeated-variable/"
                 "tautology clauses, gapped numbering, assumptions, solution_limit in {1,2,3,10,1000}, luby_factor in {1,2,100}, tiny "
                 "budgets; pigeonhole, parity chains, 18-variable cumulative encoding; non-trivial = conflict analysis produced >=1 learned "
-                "clause AND >=1 assignment was returned; distinct = canonical JSON of (clauses, assumptions, options)")
+                "clause AND >=1 assignment was returned; distinct = canonical JSON of (clauses, assumptions, options); round 2: input container forms, aliased clause "
+                "objects, option corners, call sequences, and a few heavy by-construction instances (blocks, guarded pigeonhole, sparse/large indices)")
     ctx.proof_step(["C01"])
     if (COQ / "Props" / "C01_deep.v").exists(): ctx.proof_step(["C01"], props_file="Props/C01_deep.v")  # noqa: E701
     ctx.notes += SC.NOTES + SC.NOTES_C01
+    from harness.props import sat_shapes as SH  # round-2 hardening (HARDENING.md): heavy by-construction instances, call sequences
+    heavy = SH.start_heavy(ctx, "C01")  # solved in a forked pool while the small-case engine runs
     SC.run_engine(ctx, "C01")
+    SH.finish_heavy(ctx, "C01", heavy)
+    SH.run_sequences(ctx, "C01")
     try:  # stretch C01_algorithm: exact correspondence with the faithful model coq/C01/DeepCdcl.v
         from harness.props import C01_deep; C01_deep.run_part(ctx)  # noqa: E702
     except ImportError:
